@@ -240,9 +240,9 @@ def run(ctx):
             ok = len(cs) == 1
             if ok:
                 b, t = cs[0]
-                ico = t.args[2].const_value()
+                ico = C.token_predicate(fn, a, prim.origin_of_operand(fn, t.args[2]), b, tok)
                 po = prim.origin_of_operand(fn, t.args[1]).strip()
-                ctx.ob("R3", "token-case:%s" % tok, ico is ic and po.k == "index", "%s compiles %s with ignore_case=%s; oracle the operand token, ignore_case=%s" % (tok, po.fmt(), ico, ic), fn=fn, where=prim.site(fn, b), how="dispatch table")
+                ctx.ob("R3", "token-case:%s" % tok, ico is ic and C.arm_token_abs(fn, a, po, b) == 1, "%s compiles %s with ignore_case=%s; oracle the operand token, ignore_case=%s" % (tok, po.fmt(), ico, ic), fn=fn, where=prim.site(fn, b), how="dispatch table")
                 to = prim.origin_of_operand(fn, t.args[0])
                 shared = _shared_place(to)
                 places[tok] = (to.fmt(), shared)
